@@ -231,6 +231,8 @@ func (m Manager) Update(ctx context.Context, id did.DID, next did.Document) erro
 	}
 
 	// add it to the store after the transaction is successful
+	// A failure here must not fail the update: the transaction has been published and can't be taken back.
+	// The document is also added to the store by the network subscriber, which retries when it fails.
 	if err = m.store.Add(next, didnutsStore.Transaction{
 		Clock:       dagTx.Clock(),
 		PayloadHash: dagTx.PayloadHash(),
@@ -238,7 +240,10 @@ func (m Manager) Update(ctx context.Context, id did.DID, next did.Document) erro
 		Ref:         dagTx.Ref(),
 		SigningTime: dagTx.SigningTime(),
 	}); err != nil {
-		return fmt.Errorf("update DID document: %w", err)
+		log.Logger().
+			WithError(err).
+			WithField(core.LogFieldDID, id).
+			Warn("DID Document update was published, but could not be added to the DID store (left to the network subscriber)")
 	}
 
 	log.Logger().
